@@ -19,6 +19,9 @@ TOTAL_FLOORS = {"C11": 4, "C12": 14, "C14": 14, "C15": 15, "C01": 28, "C02": 13,
                 "C13": 8, "C16": 30, "C17": 48, "C18": 6, "C20": 150}
 
 
+KERNEL_PROPS = ("C03", "C11", "C12", "C14")    # properties that own the division / GCD / Montgomery kernels
+
+
 def merge_same_rule(reps):
     """Merge reports of one rule run on several build configurations: an obligation key
     is ok only if it is ok wherever it occurs."""
@@ -51,7 +54,8 @@ def total_for(pid, ctx, own_only=False):
     reps = []
     for cfg in ctx.build_configs(quick=("all",), thorough=("all", "all-norand09", "default", "nodefault")):
         floor = TOTAL_FLOORS[pid] if cfg.startswith("all") else 0
-        reps.append(total_rule.run(ctx, entries.TOTAL_ENTRIES[pid], floor, cfg, label=pid, own_only=own_only))
+        reps.append(total_rule.run(ctx, entries.TOTAL_ENTRIES[pid], floor, cfg, label=pid, own_only=own_only,
+                                   kernels=pid in KERNEL_PROPS))
     return merge_same_rule(reps)
 
 
@@ -180,7 +184,7 @@ def rules_C15(ctx):
 
 
 def rules_C16(ctx):
-    return total_for("C16", ctx) + overflow_for("C16", ctx) + [codec.run(ctx), codec.compact_modes(ctx), codec.rlp_headers(ctx), codec.der_lengths(ctx),
+    return total_for("C16", ctx) + overflow_for("C16", ctx) + [codec.run(ctx), codec.compact_modes(ctx), codec.rlp_headers(ctx), codec.rlp_lengths(ctx), codec.der_lengths(ctx),
                                                                structural.wf(ctx, marker_generic=False)]
 
 
